@@ -29,6 +29,55 @@ class Undecided(Exception):
     pass
 
 
+class Path:
+    """one execution path of a method that branches on a symbolic scalar: decision vector + accumulated sign constraints"""
+
+    def __init__(self, prefix, pending):
+        self.prefix, self.pending = list(prefix), pending
+        self.trace, self.constraints = [], []
+
+
+PATH = None
+
+
+def decide_sign(d):
+    """sign of d from assumptions, else (inside run_paths) a forked decision recorded as a path constraint"""
+    s = sign_of(d)
+    if s is not None:
+        return s
+    if PATH is None:
+        raise Undecided(f"cannot decide sign of {d}")
+    for (e, c) in PATH.constraints:
+        if sp.simplify(e - d) == 0:
+            return c
+        if sp.simplify(e + d) == 0:
+            return -c
+    k = len(PATH.trace)
+    if k < len(PATH.prefix):
+        c = PATH.prefix[k]
+    else:
+        c = 1
+        PATH.pending.append(PATH.trace + [-1])
+    PATH.trace.append(c)
+    PATH.constraints.append((d, c))
+    return c
+
+
+def run_paths(fn, max_paths=8):
+    """re-executes fn() once per decision vector; fn receives the Path (for labelling). Returns number of paths."""
+    global PATH
+    pending = [[]]
+    n = 0
+    try:
+        while pending and n < max_paths:
+            PATH = Path(pending.pop(), pending)
+            n += 1
+            fn(PATH)
+    finally:
+        PATH = None
+    return n
+
+
 def _e(o):
     if isinstance(o, SE):
         return o.e
@@ -133,9 +182,7 @@ class SE:
         if x is NotImplemented:
             return NotImplemented
         d = self.e - x
-        s = sign_of(d)
-        if s is None:
-            raise Undecided(f"cannot decide sign of {d}")
+        s = decide_sign(d)
         return {"lt": s < 0, "le": s <= 0, "gt": s > 0, "ge": s >= 0}[op]
 
     def __lt__(self, o):
@@ -221,46 +268,67 @@ _RND = random.Random(12345)
 
 
 def _sample_point(syms, rnd):
+    """generic rational point (wide range so that accidental singularities -- e.g. a singular 2x2 block -- are improbable)"""
     pt = {}
     for s in syms:
+        num, den = rnd.randint(1, 97), rnd.choice((1, 2, 3, 5, 7, 11, 13))
         if s.is_positive:
-            pt[s] = sp.Rational(rnd.randint(1, 9), rnd.randint(1, 4))
+            pt[s] = sp.Rational(num, den)
         elif s.is_negative:
-            pt[s] = -sp.Rational(rnd.randint(1, 9), rnd.randint(1, 4))
+            pt[s] = -sp.Rational(num, den)
         else:
-            v = sp.Rational(rnd.randint(-9, 9), rnd.randint(1, 4))
-            pt[s] = v if v != 0 else sp.Rational(1, 3)
+            pt[s] = sp.Rational(num if rnd.random() < 0.5 else -num, den)
     return pt
 
 
 def numeric_zero(e, tries=6, rnd=None):
-    """-> (True, None) if e vanishes (to 40 digits) at `tries` random admissible points, else (False, witness point)"""
-    rnd = rnd or _RND
+    """-> (True, None) if e vanishes (to 40 digits) at the sampled admissible points, else (False, witness point).
+    Sampling is deterministic per expression.  A refutation needs TWO independent points where e != 0: a polynomial non-identity
+    is non-zero almost everywhere, whereas a single non-zero value can be an artefact of a point outside the domain
+    (singular sub-matrix: 0 * infinity forms)."""
+    import hashlib
+    rnd = rnd or random.Random(int(hashlib.md5(str(e).encode()).hexdigest()[:12], 16))
     syms = sorted(e.free_symbols, key=lambda s: s.name)
     ok = 0
     attempts = 0
-    while ok < tries and attempts < 4 * tries:
+    nonzero = []
+    cons = list(PATH.constraints) if PATH is not None else []
+    if cons:
+        syms = sorted(set(syms) | {x for c, _ in cons for x in c.free_symbols}, key=lambda s_: s_.name)
+    limit = 4 * tries if not cons else 400
+    while ok + len(nonzero) < tries and attempts < limit:
         attempts += 1
         pt = _sample_point(syms, rnd)
-        try:
-            v = e.subs(pt)
-            v = v if v.is_Rational else sp.N(v, 50)
-        except Exception:  # noqa: BLE001
-            continue
-        if v in (sp.nan, sp.zoo, sp.oo, -sp.oo) or v.has(sp.nan, sp.zoo):
-            continue
-        if v.is_Rational:
-            if v != 0:
-                return False, {str(k): str(val) for k, val in pt.items()}
-        else:
+        if cons:
             try:
-                if abs(complex(v)) > 1e-25:
-                    return False, {str(k): str(val) for k, val in pt.items()}
+                if not all((sp.N(c.subs(pt), 30) > 0) == (sg > 0) for c, sg in cons):
+                    continue
             except TypeError:
                 continue
-        ok += 1
-    if ok == 0:
+        try:
+            v = e.subs(pt)
+            v = v if v.is_Rational else sp.N(v, 60)
+        except Exception:  # noqa: BLE001
+            continue
+        if v in (sp.nan, sp.zoo, sp.oo, -sp.oo) or v.has(sp.nan, sp.zoo, sp.oo):
+            continue
+        if v.is_Rational:
+            isnz = v != 0
+        else:
+            try:
+                isnz = abs(complex(v)) > 1e-30
+            except TypeError:
+                continue
+        if isnz:
+            nonzero.append({str(k): str(val) for k, val in pt.items()})
+            if len(nonzero) >= 2:
+                return False, nonzero[0]
+        else:
+            ok += 1
+    if ok == 0 and not nonzero:
         raise Undecided(f"could not evaluate {str(e)[:80]} at any sample point")
+    if nonzero and ok == 0:
+        return False, nonzero[0]
     return True, None
 
 
@@ -315,7 +383,7 @@ def is_zero(e):
         return True, None, "trivial"
     if e.is_number:
         return (abs(complex(sp.N(e, 30))) < 1e-25), None, "trivial"
-    key = e
+    key = (e, tuple((c, sg) for c, sg in PATH.constraints)) if PATH is not None and PATH.constraints else e
     if key in _ZERO_CACHE:
         return _ZERO_CACHE[key]
     nz, wit = numeric_zero(e)
